@@ -2096,13 +2096,19 @@ impl<'de, 'e> de::Deserializer<'de> for YamlDeserializer<'de, 'e> {
                     #[cfg(any(feature = "garde", feature = "validator"))]
                     garde: None,
                 };
-                seed.deserialize(de).map_err(|e| {
+                let value = seed.deserialize(de).map_err(|e| {
                     if e.location().is_none() {
                         e.with_location(location)
                     } else {
                         e
                     }
-                })
+                })?;
+                // The key type must take the whole recorded node: what it leaves behind (a surplus
+                // element of a tuple key, for instance) would otherwise be dropped silently.
+                if let Some(ev) = replay.peek()? {
+                    return Err(Error::unexpected("end of the mapping key").with_location(ev.location()));
+                }
+                Ok(value)
             }
 
             /// Push a batch of entries to the front of the pending queue in order.
